@@ -493,6 +493,14 @@ def gen(rng, tier):
         ex += ["c13S " + " ".join(p) for p in product(S_ALPHA, 4)]
     streams.append(("stream-exhaustive-short", sorted(set(ex))))
     streams.append(("stream-random-long", gen_stream_random(rng, 500 if quick else 5000)))
+    # ---- objects that once carried a big message (> 64 KB), were partly read, and are reused after Reset / Tidy
+    big = []
+    for tag in ("c13S", "c13B"):
+        for n in (65537, 70000):
+            for mid in (["r4097", "z"], ["r%d" % n, "z"], ["r4097", "t", "z"], ["r4097", "z", "t"], ["s0:%d" % (n // 2), "z"]):
+                tail = ["w3", "r2", "t", "w5", "r9"] if rng.chance(1, 2) else ["w1", "r1", "w%d" % rng.range(2, 40), "s0:0", "r50"]
+                big.append("%s w%d %s %s" % (tag, n, " ".join(mid), " ".join(tail)))
+    streams.append(("big-buffer-reused", big if not quick else big[:: 2]))
     return streams
 
 
